@@ -236,6 +236,48 @@ def gen_near_ladder(rng, min_k=10, max_k=13):
     return {"triples": layout(order, lengths, gaps, rng), "family": "nearladder:%d" % k}
 
 
+def all_arm_orders(k):
+    """Every way to interleave the 5' and 3' arms of k stems (stems numbered by first appearance):
+    (2k)! / (2^k k!) sequences - every nesting / crossing topology of k stems."""
+    out = []
+
+    def rec(seq, opened, closed):
+        if len(seq) == 2 * k:
+            out.append(list(seq))
+            return
+        if opened < k:
+            rec(seq + [opened], opened + 1, closed)
+        for sid in range(opened):
+            if sid not in closed:
+                rec(seq + [sid], opened, closed | {sid})
+
+    rec([], 0, frozenset())
+    return out
+
+
+LENGTH_REGIMES = {
+    "ones": lambda k: [1] * k,
+    "twos": lambda k: [2] * k,
+    "alt12": lambda k: [1 + (i % 2) for i in range(k)],
+    "alt21": lambda k: [2 - (i % 2) for i in range(k)],
+    "rising": lambda k: [i + 1 for i in range(k)],
+    "falling": lambda k: [k - i for i in range(k)],
+}
+
+
+def topology_structures(max_k, regimes, gap_values):
+    """Exhaustive over topologies: every arm order of 1..max_k stems x the named length regimes x uniform gaps."""
+    out = []
+    for k in range(1, max_k + 1):
+        for order in all_arm_orders(k):
+            for name in regimes:
+                lengths = LENGTH_REGIMES[name](k)
+                for g in gap_values:
+                    gaps = [g] * (len(order) + 1)
+                    out.append({"triples": layout(order, lengths, gaps), "family": "topology:%d" % k})
+    return out
+
+
 def all_matchings(n):
     """Every perfect-or-partial matching on positions 1..n as a sorted tuple of pairs."""
 
